@@ -192,14 +192,14 @@ def rule_n2(chk: Check, ix: Index, ir, rule_id: str = "N2-path-token"):
 
 def rule_m5(chk: Check, ix: Index, rule_id: str = "M5-indent-balance"):
     f = ix.get("Tokenizer.consume_with_macro_params")
-    fors = [n for n in own_nodes(f.node) if isinstance(n, ast.For)]
+    fors = [n for n in own_nodes(f.node) if isinstance(n, ast.For) and "_tokengen" in norm_stmt(n.iter)]
     if len(fors) != 1:
-        raise AnalysisError("with-macro capture loop not found")
+        raise AnalysisError("with-macro capture loop (the loop over the raw token stream) not found")
     loop = fors[0]
     # decisions of one loop iteration as a path set (blind to elif-vs-if and else nesting)
     from .pyflow import stmt_paths
     try:
-        paths = stmt_paths(loop.body)
+        paths = stmt_paths(loop.body, opaque_loops=True)
     except AnalysisError as e:
         raise AnalysisError(f"with-macro capture loop is not straight-line decision code: {e}")
 
